@@ -10,7 +10,7 @@ tokens is a correspondence obligation (parse stream of the check), not a theorem
 -/
 import PoetryVerif.Proofs.VRangeBump
 import PoetryVerif.Proofs.VRangePred
-import PoetryVerif.Model.VParser
+import PoetryVerif.Proofs.VRangeParse
 import PoetryVerif.Model.VPrint
 
 set_option linter.unusedSimpArgs false
@@ -195,11 +195,6 @@ theorem parse_bare_version (c : Char) (r : List Char) (t : String) (v : Version)
   have hds : dropSpaces (c :: r) = c :: r := by simp [dropSpaces, hsp]
   simp [parseSingle, hany, h1, h2, h3, h4, h5, h6, hx, basicOp, hds, ht, hd, hv, parseVersionText, bind,
     Except.bind, pure, Except.pure]
-
-theorem x_none_gt (r : List Char) : xConstraint? ('>' :: r) = none := by
-  simp [xConstraint?, dropSpaces, isSpace, takeDigits, isDigit]
-theorem x_none_lt (r : List Char) : xConstraint? ('<' :: r) = none := by
-  simp [xConstraint?, dropSpaces, isSpace, takeDigits, isDigit]
 
 /-- token level: what the parser builds for the clauses `>=t`, `>t`, `<=t`, `<t` -/
 theorem parse_ge (r : List Char) (t : String) (v : Version) (m : Bool)
